@@ -21,7 +21,7 @@ ASSUMPTIONS = ["mido's byte-level reading/writing is trusted", "both neighbours 
                "drift is checked for runs of up to 200 events per track"]
 REQUIRED_FLAGS = ["tpb_not_24", "non_integer_position", "exact_tie", "note_off_as_note_on_velocity_0", "group_of_two_tracks",
                   "track_in_no_group", "meta_target_not_first", "overlap_across_tracks_fused", "long_run", "all_30_key_names",
-                  "meta_subset_excludes_grouped_track"]
+                  "meta_subset_excludes_grouped_track", "same_file_object_converted_twice", "stray_note_event_in_grouped_track"]
 
 TPBS = [24, 48, 96, 480, 10, 7, 36, 1000]
 DELTAS = [0, 1, 7, 10, 240]
@@ -50,8 +50,10 @@ def units(ctx):
                 yield ("R", tpb, d0, d1)
         yield ("L", tpb)
     for T in range(1, (3 if ctx["tier"] == "quick" else 4) + 1):
-        for shape in range(3):
+        for shape in range(4):
             yield ("G", T, shape)
+    for tpb in (480, 48, 10, 24):
+        yield ("H", tpb)
     yield ("K",)
 
 
@@ -90,6 +92,10 @@ def gen_cases(unit, ctx):
                 for meta in itertools.combinations(range(T), r):
                     for target in range(len(gs)):
                         yield {"kind": "G", "T": T, "shape": shape, "groups": gs, "meta": list(meta), "target": target}
+    elif kind == "H":
+        # the SAME parsed file object converted several times (different groupings), as a caller comparing groupings does
+        for word in ([7, 10, 1, 240, 7, 10], [1, 1, 1, 1, 1, 1, 1, 1], [10, 0, 7, 240, 1, 7, 10, 10, 7]):
+            yield {"kind": "H", "tpb": unit[1], "word": word}
     else:
         for key in MIDO_KEYS:
             for t in (0, 5):
@@ -150,7 +156,29 @@ def check_R(case, ctx, R):
     if len(seqs) != 1:
         R.bad("wrong_number_of_sequences", f"{len(seqs)}")
         return
-    ev = lib.view_abs(seqs[0])[0]
+    compare_positions(evs, tpb, word, seqs[0], R)
+
+
+def check_H(case, ctx, R):
+    from scoda.midi.midi_file import MidiFile
+    tpb, word = case["tpb"], case["word"]
+    evs = events_of_word(word, ctx["p"])
+    mf = mido.MidiFile(ticks_per_beat=tpb)
+    mf.tracks.append(write_track(evs))
+    mf.tracks.append(write_track([(5, 5, "on", ctx["p"] + 50), (25, 20, "off", ctx["p"] + 50)]))
+    mf.save(path_of(ctx))
+    parsed = MidiFile.open(path_of(ctx))
+    R.flags.append("same_file_object_converted_twice")
+    for k, groups in enumerate(([[0], [1]], [[0]], [[0], [1]])):
+        seqs = Sequence.sequences_load(midi_file=parsed, track_indices=groups, meta_track_indices=[0])
+        compare_positions(evs, tpb, word, seqs[0], R, f"load #{k + 1} of the same object: ")
+        if R.viols:
+            return
+    R.outcome = "H"
+
+
+def compare_positions(evs, tpb, word, seq, R, where=""):
+    ev = lib.view_abs(seq)[0]
     if tpb != 24:
         R.flags.append("tpb_not_24")
         R.nontrivial = True
@@ -186,7 +214,7 @@ def check_R(case, ctx, R):
         rs = exact.get(ident, [])
         for t in ticks:
             if not any(near(t, r) for r in rs):
-                R.bad("event_not_at_nearest_tick", f"{ident} loaded at {t!r}; exact positions {[str(r) for r in rs]} (tpb {tpb})")
+                R.bad("event_not_at_nearest_tick", f"{where}{ident} loaded at {t!r}; exact positions {[str(r) for r in rs]} (tpb {tpb})")
     # every complete on/off pair and the first signature must be present
     # a complete note whose exact length exceeds one tick cannot collapse and must be present exactly once;
     # shorter ones may round to zero length (not representable) and are optional
@@ -219,7 +247,10 @@ SHAPES = [
     lambda i: [(12 * i, 12 * i + 20, 0), (100 + i, 110 + i, 5 + i)],
     # abutting / nested across tracks
     lambda i: [(0, 40 - 10 * i, 0)] if i % 2 == 0 else [(40, 60, 0), (5, 15, 7)],
+    # shape 3: every odd track carries a stray note-off / a dangling note-on for the pitch that an even track plays
+    lambda i: [(4, 44, 0)] if i % 2 == 0 else [(50, 58, 3)],
 ]
+STRAYS = {3: lambda i: [] if i % 2 == 0 else [(20, "off", 0), (30 + i, "on", 0)]}
 
 
 def check_G(case, ctx, R):
@@ -233,6 +264,8 @@ def check_G(case, ctx, R):
         for a, b, dp in notes:
             items.append((a, 1, "on", p + dp))
             items.append((b, 0, "off" if i % 2 else "off0", p + dp))
+        for t_, k_, dp in STRAYS.get(case["shape"], lambda i: [])(i):
+            items.append((t_, 0 if k_ == "off" else 1, "off" if k_ == "off" else "on", p + dp))
         items.append((24 * (i + 1), 2, "ts", (i + 2, 4)))
         items.append((7 + i, 2, "ks", ["G", "D", "A", "E"][i]))
         items.sort(key=lambda x: (x[0], x[1]))
@@ -265,6 +298,8 @@ def check_G(case, ctx, R):
         want = set()
         for i in g:
             want |= {(0, p + dp, t) for a, b, dp in desc[i] for t in range(a, b)}
+            if STRAYS.get(case["shape"], lambda i: [])(i):
+                R.flags.append("stray_note_event_in_grouped_track")   # strays are cleaned per track and add nothing
         for view in ("abs", "rel"):
             ev = o[view][0]
             pn, orph, retr, uncl = lib.pair_notes(ev)
@@ -309,7 +344,7 @@ def check_K(case, ctx, R):
 def check_case(case, ctx):
     R = core.Res()
     try:
-        {"R": check_R, "G": check_G, "K": check_K}[case["kind"]](case, ctx, R)
+        {"R": check_R, "G": check_G, "K": check_K, "H": check_H}[case["kind"]](case, ctx, R)
     except core.HarnessError:
         raise
     except Exception as e:  # noqa: BLE001
